@@ -763,6 +763,9 @@ impl Parser {
             }
             self.next_token();
         }
+        if self.curr_token_is(&TokenType::Eof) {
+            self.push_error("expected '}' before the end of input");
+        }
         BlockStatement { token, statements }
     }
 
